@@ -52,7 +52,8 @@ CoreOps(ts) ==
   \cup {[name |-> nm, c |-> c, form |-> f, w |-> w] :
       nm \in {"get_mut", "index_mut"}, c \in Classes, f \in {0, 1}, w \in Writes}
   \cup {[name |-> "retain", keep |-> K, w |-> w] : K \in SUBSET Classes, w \in Writes}
-  \cup {[name |-> "clear"], [name |-> "drop"]}
+  \cup {[name |-> "clear"], [name |-> "drop"], [name |-> "default"], [name |-> "iter_defaults"]}
+  \cup {[name |-> "with_capacity", c |-> c] : c \in {cap, cap + 1}}
   \cup UNION {{[name |-> "drain", n |-> n, end |-> e, fin |-> f[1], j |-> f[2]] : f \in FinsFor(Len(ts) - n), e \in {"drop", "forget"}} : n \in 0..Len(ts)}
 
 UncheckedOps(ts) ==
@@ -63,10 +64,11 @@ UncheckedOps(ts) ==
 
 CursorOps(ts) ==
   UNION {
-  {[name |-> "cursor", kind |-> kd, n |-> n, w |-> w, end |-> "drop", fin |-> f[1], j |-> f[2]] :
-      kd \in BorrowKinds \ MutKinds, w \in {NoWrite}, f \in FinsFor(Len(ts) - n)}
-  \cup {[name |-> "cursor", kind |-> kd, n |-> n, w |-> w, end |-> "drop", fin |-> f[1], j |-> f[2]] :
-      kd \in MutKinds, w \in Writes, f \in FinsFor(Len(ts) - n)}
+  \* via = "m": the method (iter(), iter_mut(), ...); via = "r": IntoIterator for &Map / &mut Map
+  {x \in {[name |-> "cursor", kind |-> kd, n |-> n, w |-> w, end |-> "drop", fin |-> f[1], j |-> f[2], via |-> v] :
+            kd \in BorrowKinds \ MutKinds, w \in {NoWrite}, f \in FinsFor(Len(ts) - n), v \in {"m", "r"}} : x.via = "m" \/ x.kind = "iter"}
+  \cup {x \in {[name |-> "cursor", kind |-> kd, n |-> n, w |-> w, end |-> "drop", fin |-> f[1], j |-> f[2], via |-> v] :
+            kd \in MutKinds, w \in Writes, f \in FinsFor(Len(ts) - n), v \in {"m", "r"}} : x.via = "m" \/ x.kind = "iter_mut"}
   \cup {[name |-> "cursor", kind |-> kd, n |-> n, w |-> NoWrite, end |-> e, fin |-> f[1], j |-> f[2]] :
       kd \in ConsumeKinds, e \in {"drop", "forget"}, f \in FinsFor(Len(ts) - n)} : n \in 0..Len(ts)}
 
@@ -128,9 +130,9 @@ SetCoreOps(ts) ==
   \cup {[name |-> nm, c |-> c, form |-> f] :
       nm \in {"s_contains", "s_get", "s_remove", "s_take"}, c \in Classes, f \in {0, 1}}
   \cup {[name |-> "s_retain", keep |-> K] : K \in SUBSET Classes}
-  \cup {[name |-> "s_clear"], [name |-> "s_drop"]}
+  \cup {[name |-> "s_clear"], [name |-> "s_drop"], [name |-> "s_default"]}
   \cup UNION {{[name |-> "s_drain", n |-> n, end |-> e, fin |-> f[1], j |-> f[2]] : f \in FinsFor(Len(ts) - n), e \in {"drop", "forget"}} : n \in 0..Len(ts)}
-  \cup UNION {{[name |-> "s_iter", n |-> n, fin |-> f[1], j |-> f[2]] : f \in FinsFor(Len(ts) - n)} : n \in 0..Len(ts)}
+  \cup UNION {{[name |-> "s_iter", n |-> n, fin |-> f[1], j |-> f[2], via |-> v] : f \in FinsFor(Len(ts) - n), v \in {"m", "r"}} : n \in 0..Len(ts)}
   \cup UNION {{[name |-> "s_into_iter", n |-> n, end |-> e, fin |-> f[1], j |-> f[2]] : f \in FinsFor(Len(ts) - n), e \in {"drop", "forget"}} : n \in 0..Len(ts)}
   \cup {[name |-> "s_fmt", style |-> st] : st \in FmtStyles}
 
